@@ -32,7 +32,7 @@ def main(path):
 
 def run_case(case, key):
     fam = case["family"]
-    params = dict(case["params"])
+    params = dict(case.get("params") or {})
     params["only"] = key
     prods = tuple((l, tuple(r)) for l, r in case["prods"]) if case.get("prods") else None
     if fam == "glr":
